@@ -40,7 +40,12 @@ pub fn prop() -> Prop {
          (one operation lacks the variable, defines it with a type not allowed at the fragment's usage, or defines a variable \
          only another operation uses), and their valid counterparts (extract a fragment, spread it again where possible, copy \
          an operation, a stricter variable type in one operation, apply a directive at any location its definition lists, \
-         twice when repeatable). Classes ctx:<construct>|<verdict> count these documents.",
+         twice when repeatable). Classes ctx:<construct>|<verdict> count these documents. Look-alike copies \
+         (gen::opmutate_copy): a valid set `... on A {k: f} ... on B {k: g}` and a copy with content-equal fields whose \
+         second condition is not exclusive with A, below the same or another field / set / operation, in either order \
+         (merge-copy-conflict; n-merge-copy is the valid counterpart); a new list-typed variable at a list position with \
+         the nullability of every wrapper drawn independently of the location and a default on the variable or not \
+         (var-list-position).",
     )
     .random("pairs", check, |t| if t == Tier::Quick { 250_000 } else { 3_000_000 }, |t| if t == Tier::Quick { 700 } else { 1000 })
     .text(check_text)
